@@ -6,25 +6,38 @@ import TB.Lemmas.RunD
 import TB.Props.C01
 import TB.Props.C15
 namespace TB
-
+open TB.RD
 /-- whatever fails, every piece is still evaluated and accounted for exactly once (the worker loop goes on),
     and the number of faulted pieces never exceeds the number of pieces -/
 theorem C13_all_accounted (H : Bytes → Bytes) (st : St) (ws : List Work) (h : (solveAll H st ws ⟨0, 0, 0⟩ []).2.2 = false) :
     (solveAll H st ws ⟨0, 0, 0⟩ []).2.1.length = ws.length ∧
     ∀ c ∈ (solveAll H st ws ⟨0, 0, 0⟩ []).2.1.getLast?, c.success + c.failed + c.fault = ws.length := by
-  sorry
+  obtain ⟨recs, h1, h2, h3⟩ := C15_sum H st ws ⟨0, 0, 0⟩ [] h
+  rw [h1]
+  simp only [List.nil_append]
+  refine ⟨h2, ?_⟩
+  intro c hc
+  have hc' : recs.getLast? = some c := hc
+  rw [List.getLast?_eq_getElem?] at hc'
+  obtain ⟨hk, he⟩ := List.getElem?_eq_some_iff.mp hc'
+  have := h3 _ hk
+  rw [he] at this
+  simp only [] at this
+  omega
 
 /-- bytes written before (or despite) a failure are still sound: soundness of a write does not depend on the
     fault points at all -/
 theorem C13_writes_sound (H : Bytes → Bytes) (st : St) (faults : List Nat) (w : Work) :
     ∀ o ∈ newOps { st with faults := faults } (solvePiece H { st with faults := faults } w).1, WriteSound H w o := by
-  sorry
+  exact C01_write_sound H { st with faults := faults } w
 
 /-- an injected failure makes exactly the operation at that index fail and has no effect on the tree -/
 theorem C13_fault_is_noop (st : St) (kind : OpKind) (path : Path) (natural : Fs → Fs × Bool)
     (h : st.faults.contains st.ops.length = true) :
     (st.op kind path natural).2 = false ∧ (st.op kind path natural).1.fs = st.fs := by
-  sorry
+  unfold St.op
+  rw [if_pos h]
+  exact ⟨rfl, rfl⟩
 
 /-- locality: fault points outside the window of log indices used by the evaluation of a piece do not change
     that evaluation — same outcome, same operations, same effect on the tree -/
@@ -33,12 +46,13 @@ theorem C13_local (H : Bytes → Bytes) (st : St) (w : Work)
     (solvePiece H st w).2 = (solvePiece H { st with faults := [] } w).2 ∧
     (solvePiece H st w).1.fs = (solvePiece H { st with faults := [] } w).1.fs ∧
     (solvePiece H st w).1.ops = (solvePiece H { st with faults := [] } w).1.ops := by
-  sorry
+  obtain ⟨h1, h2, _⟩ := (solvePiece_sim H w).2 st { st with faults := [] } ⟨rfl, rfl, rfl⟩ h
+  exact ⟨h1, h2.fs, h2.ops⟩
 
 /-- a piece whose evaluation hit a failed operation is counted as faulted, never as succeeded or failed-to-match:
     the outcome `found` implies every operation logged for the piece succeeded -/
 theorem C13_found_all_ok (H : Bytes → Bytes) (st : St) (w : Work) (h : (solvePiece H st w).2 = .found) :
     ∀ o ∈ newOps st (solvePiece H st w).1, o.ok = true := by
-  sorry
+  exact (solvePiece_ok H st w h).newOps
 
 end TB
